@@ -174,3 +174,59 @@ func twoListeners(t *testing.T, rep *ev.Report) {
 		rep.Violate(map[string]any{"kind": "hang", "part": "two-listeners"}, map[string]any{"hang": res.Hang}, "%s: %s", desc, res.Hang)
 	}
 }
+
+// The internal HTTP/1.1 accept loop is held up (it has taken one connection and not yet returned it to net/http - a
+// slow ConnState hook does that) while a burst of HTTP/1.1 connections completes its handshakes and waits to be handed
+// over; then the context is cancelled. None of these connections has been served; every one of them must be closed,
+// Serve returns the 'server closed' error.
+func acceptHeldUp(t *testing.T, rep *ev.Report, burst int) {
+	desc := fmt.Sprintf("accept loop of the HTTP/1.1 server held up, %d more HTTP/1.1 connections waiting to be handed over, then cancellation", burst)
+	res := bubble.Run(t, func() {
+		gates := bubble.NewGates("hack.ChannelListener.accepted")
+		defer gates.Uninstall()
+		st := bubble.NewStack(bubble.StackOpts{HandshakeTimeout: 10 * time.Second})
+		defer st.Shutdown()
+		var cls []*bubble.Client
+		for i := 0; i <= burst; i++ {
+			cls = append(cls, st.Connect(fmt.Sprintf("burst-%d", i), nil, helloH1))
+			synctest.Wait()
+		}
+		if len(gates.ParkedList()) != 1 {
+			rep.HarnessError("%s: %d goroutines parked at the accept gate, expected 1", desc, len(gates.ParkedList()))
+			return
+		}
+		st.Cancel()
+		synctest.Wait()
+		gates.Open()
+		synctest.Wait()
+		for i := 0; i < 5; i++ {
+			time.Sleep(2 * time.Second)
+			synctest.Wait()
+		}
+		rep.Add("accept_held_up_cases", 1)
+		replay := map[string]any{"burst": burst}
+		if ret, err := st.ServeReturned(); !ret {
+			rep.Violate(map[string]any{"kind": "serve-not-returned", "part": "accept-held-up"}, replay, "%s: Serve has not returned 10 s after cancellation", desc)
+		} else if !errors.Is(err, http.ErrServerClosed) {
+			rep.Violate(map[string]any{"kind": "serve-wrong-error", "part": "accept-held-up"}, replay, "%s: Serve returned %q, required http.ErrServerClosed", desc, fmt.Sprint(err))
+		}
+		open := 0
+		for _, cl := range cls {
+			if cl.Srv != nil && cl.Srv.NumCloses() == 0 {
+				open++
+			}
+		}
+		if open > 0 {
+			rep.Violate(map[string]any{"kind": "idle-h1-not-closed", "part": "accept-held-up"}, replay, "%s: 10 s after cancellation the proxy still holds connections open that were never served (at least one of %d)", desc, burst+1)
+		}
+		if st.Backend.Count() != 0 {
+			rep.HarnessError("%s: a request was served although none was sent", desc)
+		}
+	})
+	if res.Panic != nil {
+		rep.HarnessError("%s: panic %v\n%s", desc, res.Panic, res.Stack)
+	}
+	if res.Hang != "" {
+		rep.Violate(map[string]any{"kind": "hang", "part": "accept-held-up"}, map[string]any{"hang": res.Hang}, "%s: %s", desc, res.Hang)
+	}
+}
